@@ -1663,3 +1663,30 @@ def yield_from_generator(n):
         yield from [7, 8]
 
     return list(outer())
+
+
+# torch: x[i] is a 0-dim VIEW (an in-place operator on it writes x[i]); numpy: x[i] is a scalar copy
+@prog(TTR(4), I(0, 3), R(-2, 2))
+def torch_elem_view_inplace_writes_base(x, i, v):
+    x = x.clone()
+    t = x[i]
+    t += v
+    t *= 2.0
+    return x, t.item()
+
+
+@prog(TTR(4), I(0, 3), R(-2, 2))
+def torch_elem_then_fresh_accumulator(x, i, v):
+    x = x.clone()
+    total = 0.0
+    total += x[i]      # a NEW 0-dim tensor: later in-place adds do not touch x
+    total += v
+    return x, total
+
+
+@prog(NPR(4), I(0, 3), R(-2, 2))
+def numpy_elem_copy_inplace_keeps_base(x, i, v):
+    x = x.copy()
+    t = x[i]
+    t += v
+    return x
